@@ -41,7 +41,31 @@ const BASE_BRANCHES: [Option<&str>; 49] = [None, Some("main"), Some("develop"), 
 /// (explored with a reduced flag product: one commit ahead, no override flags)
 const DEEP_BRANCHES: [&str; 40] = ["feature/42", "feature/42/tail-fix", "feature/s1/42", "feature/s1/42/tail-fix", "feature/s1/s2/42", "feature/s1/s2/42/tail-fix", "feature/s1/s2/s3/42", "feature/s1/s2/s3/42/tail-fix", "feature/s1/s2/s3/s4/42", "feature/s1/s2/s3/s4/42/tail-fix", "feature/s1/s2/s3/s4/s5/42", "feature/s1/s2/s3/s4/s5/42/tail-fix", "feature/s1/s2/s3/s4/s5/s6/42", "feature/s1/s2/s3/s4/s5/s6/42/tail-fix", "feature/s1/s2/s3/s4/s5/s6/s7/42", "feature/s1/s2/s3/s4/s5/s6/s7/42/tail-fix", "feature/s1/s2/s3/s4/s5/s6/s7/s8/42", "feature/s1/s2/s3/s4/s5/s6/s7/s8/42/tail-fix", "feature/s1/s2/s3/s4/s5/s6/s7/s8/s9/42", "feature/s1/s2/s3/s4/s5/s6/s7/s8/s9/42/tail-fix", "release/42", "release/42/tail-fix", "release/s1/42", "release/s1/42/tail-fix", "release/s1/s2/42", "release/s1/s2/42/tail-fix", "release/s1/s2/s3/42", "release/s1/s2/s3/42/tail-fix", "release/s1/s2/s3/s4/42", "release/s1/s2/s3/s4/42/tail-fix", "release/s1/s2/s3/s4/s5/42", "release/s1/s2/s3/s4/s5/42/tail-fix", "release/s1/s2/s3/s4/s5/s6/42", "release/s1/s2/s3/s4/s5/s6/42/tail-fix", "release/s1/s2/s3/s4/s5/s6/s7/42", "release/s1/s2/s3/s4/s5/s6/s7/42/tail-fix", "release/s1/s2/s3/s4/s5/s6/s7/s8/42", "release/s1/s2/s3/s4/s5/s6/s7/s8/42/tail-fix", "release/s1/s2/s3/s4/s5/s6/s7/s8/s9/42", "release/s1/s2/s3/s4/s5/s6/s7/s8/s9/42/tail-fix"];
 const N_BRANCHES: usize = BASE_BRANCHES.len() + DEEP_BRANCHES.len();
-fn branch_name(i: usize) -> Option<&'static str> { if i < BASE_BRANCHES.len() { BASE_BRANCHES[i] } else { Some(DEEP_BRANCHES[i - BASE_BRANCHES.len()]) } }
+/// grid branches: `release/<g>` and `feature/<g>/x` for every value g of the dense numeric grid (numpool), index N_BRANCHES..
+static GRID_BRANCHES: std::sync::OnceLock<Vec<String>> = std::sync::OnceLock::new();
+fn grid_branches() -> &'static Vec<String> { GRID_BRANCHES.get_or_init(|| numpool::grid().into_iter().flat_map(|g| [format!("release/{g}"), format!("feature/{g}/x")]).collect()) }
+fn branch_name(i: usize) -> Option<&'static str> { if i < BASE_BRANCHES.len() { BASE_BRANCHES[i] } else if i < N_BRANCHES { Some(DEEP_BRANCHES[i - BASE_BRANCHES.len()]) } else { Some(grid_branches()[i - N_BRANCHES].as_str()) } }
+
+/// dense numeric grid in each numeric input in turn: --distance, --post, --pre-release-num, the branch's digit segment, on two
+/// tags (final, pre-release with post), clean / dirty, both post modes, default rules
+fn grid_space() -> Vec<Case> {
+    let mut v = vec![];
+    let g32 = numpool::grid_u32();
+    for tag in [0usize, 3] { for dirty_flag in [0usize, 1] { for mode in [None, Some("tag"), Some("commit")] { for branch in [2usize, 5] {
+        let base = Case { tag, branch, distance: Some(1), dirty_flag, post: None, label: None, num: None, mode, rules: 0, hash_len: None, stdin: false };
+        // --distance, --post and --pre-release-num are 32-bit options of the command line (a wider value is a usage error)
+        for &g in &g32 {
+            v.push(Case { distance: Some(g as u64), ..base.clone() });
+            v.push(Case { post: Some(g as u64), ..base.clone() });
+            v.push(Case { post: Some(g as u64), distance: Some(3), stdin: true, ..base.clone() });
+            v.push(Case { num: Some(g), ..base.clone() }); v.push(Case { num: Some(g), label: Some("rc"), ..base.clone() });
+        }
+    }}}}
+    for tag in [0usize, 2] { for mode in [None, Some("tag")] { for rules in [0usize, 5] { for b in 0..grid_branches().len() {
+        v.push(Case { tag, branch: N_BRANCHES + b, distance: Some(1), dirty_flag: 0, post: None, label: None, num: None, mode, rules, hash_len: None, stdin: false });
+    }}}}
+    v
+}
 
 #[derive(Clone, Debug)]
 struct Case { tag: usize, branch: usize, distance: Option<u64>, dirty_flag: usize, post: Option<u64>, label: Option<&'static str>, num: Option<u32>, mode: Option<&'static str>, rules: usize, hash_len: Option<usize>, stdin: bool }
@@ -140,7 +164,7 @@ fn main() {
         // re-judge through the full space is the authoritative replay: run the quick space restricted to this argv
         let mut st = Stats::default();
         for c in space(true, &sets) { if argv(&c, &sets) == args { judge(&ctx, &c, &tags, &sets, now, &mut st); } }
-        for c in hash_space() { if argv(&c, &sets) == args { judge(&ctx, &c, &tags, &sets, now, &mut st); } }
+        for c in hash_space().into_iter().chain(grid_space()) { if argv(&c, &sets) == args { judge(&ctx, &c, &tags, &sets, now, &mut st); } }
         finish(&ctx, Coverage::default());
     }
     use rayon::prelude::*;
@@ -148,6 +172,9 @@ fn main() {
     let s1 = cases.par_iter().map(|c| { let mut st = Stats::default(); judge(&ctx, c, &tags, &sets, now, &mut st); st }).reduce(Stats::default, Stats::merge);
     let hs = hash_space();
     let s2 = hs.par_iter().map(|c| { let mut st = Stats::default(); st.inc("hash_len_runs"); judge(&ctx, c, &tags, &sets, now, &mut st); st }).reduce(Stats::default, Stats::merge);
+    let gsp = grid_space();
+    let s2g = gsp.par_iter().map(|c| { let mut st = Stats::default(); st.inc("grid_runs"); judge(&ctx, c, &tags, &sets, now, &mut st); st }).reduce(Stats::default, Stats::merge);
+    let s2 = s2.merge(s2g);
     // BranchRules::resolve_for_branch directly (second observation point)
     let mut s3 = Stats::default();
     {
@@ -187,12 +214,12 @@ fn main() {
 
     let all = s1.merge(s2).merge(s3).merge(s4.clone());
     let mut cov = Coverage::default();
-    cov.states = (cases.len() + hs.len()) as u64 + all.get("resolve_for_branch_cases");
+    cov.states = (cases.len() + hs.len() + gsp.len()) as u64 + all.get("resolve_for_branch_cases");
     cov.transitions = all.get("runs");
     cov.evaluations = all.get("runs") + all.get("resolve_for_branch_cases");
     cov.traces_validated = cov.evaluations;
     cov.distinct_nontrivial = all.get("active_cases");
-    cov.rule = format!("full product tag{TAGS:?} x {} branch names (incl. prefix-without-slash, digit segments, zero-padded, u32-overflowing, non-ASCII, absent; 40 of them with the number 1..10 segments deep, on a reduced flag product) x distance[none,0,1,5] x dirty[unset,--dirty,--no-dirty,--clean] x --post x --pre-release-label x --pre-release-num x --post-mode x 6 rule sets{}, run through run_flow_pipeline with --output-format zerv on source none{} and compared field by field with R-FLOW; hash lengths 0..11 x branches x 2 tags against R-SIP; BranchRules::resolve_for_branch directly. non-trivial = active (dirty or ahead) cases", N_BRANCHES, if ctx.quick() { " (quick: 4 tags, distance without 5)" } else { "" }, if ctx.quick() { " (+ a strided stdin slice)" } else { " and stdin" });
+    cov.rule = format!("full product tag{TAGS:?} x {} branch names (incl. prefix-without-slash, digit segments, zero-padded, u32-overflowing, non-ASCII, absent; 40 of them with the number 1..10 segments deep, on a reduced flag product) x distance[none,0,1,5] x dirty[unset,--dirty,--no-dirty,--clean] x --post x --pre-release-label x --pre-release-num x --post-mode x 6 rule sets{}, run through run_flow_pipeline with --output-format zerv on source none{} and compared field by field with R-FLOW; hash lengths 0..11 x branches x 2 tags against R-SIP; BranchRules::resolve_for_branch directly; dense numeric grid (0..=300, neighbourhoods of 2^8..2^64 and 10^2..10^20) as --distance, --post, --pre-release-num and as the digit segment of release/<g> and feature/<g>/x ({} runs). non-trivial = active (dirty or ahead) cases", N_BRANCHES, if ctx.quick() { " (quick: 4 tags, distance without 5)" } else { "" }, if ctx.quick() { " (+ a strided stdin slice)" } else { " and stdin" }, gsp.len());
     cov.exhaustive = true;
     cov.samples = vec![json!(argv(&cases[cases.len() / 2], &sets)), json!(argv(&cases[cases.len() - 3], &sets)), json!(argv(&hs[17], &sets))];
     cov.set("clause_counts", all.to_json());
